@@ -83,7 +83,7 @@ CallOn(fe, how) == CASE how = "one"     -> ECall(fe, <<N(1)>>)
 
 \* ------------------------------------------------------------------ calling contexts
 CtxNames == {"param-k", "record-field", "list-item", "if-branch", "spread-source", "logical-operand", "param-a", "top", "param-g", "param-x", "param-f-arg", "do-local-g", "do-local-h", "do-local-k", "via-callback", "where-callback",
-             "map-callback", "reduce-callback", "passed-as-value", "after-refused-redefinition", "param-inputs", "nested-do-in-fn"}
+             "map-callback", "reduce-callback", "passed-as-value", "alias-under-param-f", "alias-under-local-f", "alias-in-callback-param-f", "after-refused-redefinition", "param-inputs", "nested-do-in-fn"}
 \* pre: extra statements run before (may fail); e: the expression whose value is observed; post: how the observed value relates to the call's
 CtxOf(cn, E, how) ==
   LET Q == Req("q") IN
@@ -106,6 +106,10 @@ CtxOf(cn, E, how) ==
     [] cn = "map-callback"   -> [pre |-> <<>>, e |-> ECall(EId("map"), <<EList(<<N(0)>>), ELam(<<Q>>, E)>>), wrap |-> "list1"]
     [] cn = "reduce-callback" -> [pre |-> <<>>, e |-> ECall(EId("reduce"), <<EList(<<N(0)>>), ELam(<<Req("acc"), Q>>, E), N(0)>>), wrap |-> "id"]
     [] cn = "passed-as-value" -> [pre |-> <<>>, e |-> ECall(ELam(<<Req("hh")>>, CallOn(EId("hh"), how)), <<F>>), wrap |-> "id"]
+    \* the function reached through another name, from a scope in which its own name means something else
+    [] cn = "alias-under-param-f" -> [pre |-> <<EAsg("hh", F)>>, e |-> ECall(ELam(<<Req("f")>>, CallOn(EId("hh"), how)), <<N(99)>>), wrap |-> "id"]
+    [] cn = "alias-under-local-f" -> [pre |-> <<EAsg("hh", F)>>, e |-> EDo(<<EAsg("f", N(99))>>, CallOn(EId("hh"), how)), wrap |-> "id"]
+    [] cn = "alias-in-callback-param-f" -> [pre |-> <<EAsg("hh", F)>>, e |-> EBin("via", EList(<<N(0)>>), ELam(<<Req("f")>>, CallOn(EId("hh"), how))), wrap |-> "list1"]
     [] cn = "after-refused-redefinition" -> [pre |-> <<EAsg("g", N(11)), EAsg("f", N(0))>>, e |-> E, wrap |-> "id"]
     [] cn = "param-inputs"  -> [pre |-> <<>>, e |-> ECall(ELam(<<Req("inputs")>>, E), <<N(99)>>), wrap |-> "id"]
     [] cn = "nested-do-in-fn" -> [pre |-> <<>>, e |-> ECall(ELam(<<Req("g")>>, EDo(<<EAsg("x", N(98))>>, E)), <<N(99)>>), wrap |-> "id"]
